@@ -138,7 +138,9 @@ R_CURSOR = _rule("R-CURSOR", "r_cur", text="every read, copy and advance through
                  "facts end - cursor >= c and end - cursor >= v + c and byte-value ranges (armed groups, tables/cursor_sites.json)")
 R_SAME = _rule("R-SAME", "r_same", text="a validity test (is_infinity / is_zero) on an array element guards the use of that same element: the element expression of the test and of the "
                "guarded call are identical and its index variables are not reassigned in between (instances discovered on the reviewed tree, tables/same_elem.json)")
-BOUNDS = [R_CAP, R_RING, R_WRAP, R_INB, R_LEN, R_SIB, R_BITS, R_NULL, R_CURSOR, R_SAME]
+R_LOOP = _rule("R-LOOP", "r_loop", text="a loop that may run zero times keeps its exit test in front of the body (head-tested, or tail-tested behind a dominating test of the same "
+               "variable): per (function, condition variables) the number of such loops on the reviewed tree is frozen (tables/loop_sites.json)")
+BOUNDS = [R_CAP, R_RING, R_WRAP, R_INB, R_LEN, R_SIB, R_BITS, R_NULL, R_CURSOR, R_SAME, R_LOOP]
 # every module-level property runs every rule family; obligations are scoped to a property by the function they sit in
 # (core.props_of_function) or by the explicit property set of their instance table, so a rule contributes nothing where
 # it has no instance.  (Found with seed C12-d: R-BITS had the MuSig counter instance but C12 did not run R-BITS.)
